@@ -80,3 +80,131 @@ Proof.
   - intros acts H. vm_compute in H. inversion H. reflexivity.
   - eexists. split; [vm_compute; reflexivity | reflexivity].
 Qed.
+
+(* ===================================================================================================================
+   The grounding step (GrounderHelper.ground_action(prune_actions=False) -> create_action_with_given_subs) INSIDE the
+   model: Planning/Ground.v substitutes the parameters, simplifies preconditions / effect target arguments / values /
+   conditions through the C11 model of the Simplifier (Walkers/Simplify.v, configured as env.simplifier: no static
+   fluents), drops true preconditions and false-conditioned effects, returns None on a false precondition or on a
+   SYNTACTIC conflict (effect.py check_conflicting_effects on the rebuilt effects), and drops forall variables that are no
+   longer free (Effect.__init__).  [sim_apply_grounded sc T P s a args] runs the simulator's algorithm on the grounded
+   action; [T] is the user-type table the simplifier reads (Ground.v explains why it is not part of [problem]).
+   =================================================================================================================== *)
+Require Import UPV.Planning.Ground UPV.Walkers.Simplify UPV.Proofs.Simplify_proofs UPV.Proofs.Ground_proofs.
+
+(* (a) On total information the grounded step of the code (short-circuit quantifiers) IS the strict documented step.
+   Hypotheses: C11's scoping side conditions on the action's expressions ([ground_wf_b]) and on the interpretation
+   ([env_ok], derivable from the tables by C01_grounded_env_ok_from_tables); every read of the strict documented step
+   is defined ([step_defined]: Boolean-valued preconditions, every effect instance evaluable, invariants defined in
+   the successor); fired effects well typed (as in C01_sim_apply_refines_spec); the rebuilt effects do not conflict
+   syntactically; no forall variable vanishes.  C11's soundness theorem (defined values are preserved) is what is
+   used for every simplification step. *)
+Theorem C01_grounded_refines_semantic :
+  forall T P tau QT s a args,
+    ground_wf_b tau QT a = true ->
+    env_ok (gcfg T P) tau QT (mk_interp P s []) ->
+    step_defined P s a args ->
+    effects_typed false P s a args ->
+    ground_conflict T P a args = false ->
+    vars_dropped T P a args = false ->
+    ostate_eq (sim_apply_grounded true T P s a args) (spec_step false P s a args).
+Proof. exact grounded_refines_semantic. Qed.
+Print Assumptions C01_grounded_refines_semantic.
+
+(* under the same hypotheses grounding changes nothing at all: the step on the grounded action equals (Leibniz) the
+   step of the semantic-level model [sim_apply] with the parameters bound, for either quantifier mode *)
+Theorem C01_grounded_eq_ungrounded :
+  forall sc T P tau QT s a args,
+    ground_wf_b tau QT a = true ->
+    env_ok (gcfg T P) tau QT (mk_interp P s []) ->
+    pre_defined (mk_interp P s (zip_params (a_params a) args)) (a_pre a) ->
+    fired false (mk_interp P s (zip_params (a_params a) args)) (a_effs a) <> None ->
+    ground_conflict T P a args = false ->
+    vars_dropped T P a args = false ->
+    sim_apply_grounded sc T P s a args = sim_apply sc P s a args.
+Proof. exact grounded_eq_ungrounded. Qed.
+Print Assumptions C01_grounded_eq_ungrounded.
+
+(* (c) never less defined: whenever the strict documented step is applicable (then all its reads are defined), the
+   grounded step is applicable with the same successor — provided grounding does not reject the action syntactically
+   and loses no forall variable (C01_grounded_syntactic_conflict_refuted / C01_grounded_forall_applied_once_refuted
+   show that neither proviso can be dropped) *)
+Theorem C01_grounded_never_less_defined :
+  forall T P tau QT s a args s',
+    spec_step false P s a args = Some s' ->
+    ground_wf_b tau QT a = true ->
+    env_ok (gcfg T P) tau QT (mk_interp P s []) ->
+    effects_typed false P s a args ->
+    ground_conflict T P a args = false ->
+    vars_dropped T P a args = false ->
+    exists t, sim_apply_grounded true T P s a args = Some t /\ state_eq t s'.
+Proof. exact grounded_never_less_defined. Qed.
+Print Assumptions C01_grounded_never_less_defined.
+
+(* the precondition half needs nothing about the effects: preconditions that hold under the strict reading are never
+   lost by check_and_simplify_preconditions (it never answers "contradiction", and what it keeps holds) *)
+Theorem C01_ground_pre_never_less_satisfied :
+  forall T P tau QT s a args,
+    forallb (wfx tau QT []) (a_pre a) = true ->
+    env_ok (gcfg T P) tau QT (mk_interp P s []) ->
+    all_hold false (mk_interp P s (zip_params (a_params a) args)) (a_pre a) = true ->
+    exists l, ground_pre (gcfg T P) (zip_params (a_params a) args) (a_pre a) = Some l /\
+              forall sc, all_hold sc (mk_interp P s []) l = true.
+Proof. exact ground_pre_never_less_satisfied. Qed.
+Print Assumptions C01_ground_pre_never_less_satisfied.
+
+(* the interpretation hypothesis from checkable tables: a type table consistent with the problem's object lists
+   (boolean check) and a state whose object-valued fluents hold objects of their type *)
+Theorem C01_grounded_env_ok_from_tables :
+  forall T P tau s, tytab_ok_b T P = true -> state_typed P s ->
+    env_ok (gcfg T P) tau (qt_of P) (mk_interp P s []).
+Proof. exact env_ok_of_tables. Qed.
+Print Assumptions C01_grounded_env_ok_from_tables.
+
+(* (b) The three deviations of the code from the documented semantics that come from grounding, as witnesses INSIDE the
+   model (recorded findings C01-simplified-undefined-read, C01-grounding-syntactic-conflict,
+   C01-forall-variable-vanishes).  In each, exactly one hypothesis of C01_grounded_refines_semantic fails. *)
+
+(* (u or not u) over a fluent u with no value is simplified away: the grounded action is applicable, the documented
+   step is not, because a precondition reads a fluent with no value ([step_defined] fails) *)
+Theorem C01_grounded_tautology_over_undefined_refuted :
+  exists T P s a args,
+    (exists t, sim_apply_grounded true T P s a args = Some t) /\ spec_step false P s a args = None /\
+    (exists c, In c (a_pre a) /\ eval false c (mk_interp P s (zip_params (a_params a) args)) = None).
+Proof. exact grounded_tautology_over_undefined_ex. Qed.
+Print Assumptions C01_grounded_tautology_over_undefined_refuted.
+
+(* x(p) := y and x(q) := 3 with p = q in a state where y = 3: every read is defined and the documented step is
+   applicable, but the rebuilt effects differ syntactically and grounding returns None ([ground_conflict] = true) *)
+Theorem C01_grounded_syntactic_conflict_refuted :
+  exists T P s a args,
+    ground_action T P a args = None /\ sim_apply_grounded true T P s a args = None /\
+    (exists t, spec_step false P s a args = Some t) /\ step_defined P s a args.
+Proof. exact grounded_syntactic_conflict_ex. Qed.
+Print Assumptions C01_grounded_syntactic_conflict_refuted.
+
+(* forall v. if (v == v) then r += x over a type with two objects: the condition simplifies to true, v vanishes from
+   the rebuilt effect and the increase is applied once (r + x) instead of once per object (r + x + x)
+   ([vars_dropped] = true) *)
+Theorem C01_grounded_forall_applied_once_refuted :
+  exists T P s a args f x,
+    (exists t, sim_apply_grounded true T P s a args = Some t /\ t f [] = Some (VNum x)) /\
+    (exists t, spec_step false P s a args = Some t /\ t f [] = Some (VNum (x + x)%Qc)) /\ x <> zq 0.
+Proof. exact grounded_forall_applied_once_ex. Qed.
+Print Assumptions C01_grounded_forall_applied_once_refuted.
+
+(* non-vacuity of the grounded theorems: a parametrised action whose precondition (b(p) and p == p) is really
+   simplified (to b(o)) with a conditional forall increase; every hypothesis holds and the step is applicable *)
+Example C01_grounded_nonvacuous :
+  let args := [VObj 0%N] in
+  let tau := fun _ : N => 0%N in
+  ground_wf_b tau (qt_of P_nv) a_nv = true /\
+  env_ok (gcfg T1 P_nv) tau (qt_of P_nv) (mk_interp P_nv s_nv []) /\
+  step_defined P_nv s_nv a_nv args /\
+  effects_typed false P_nv s_nv a_nv args /\
+  ground_conflict T1 P_nv a_nv args = false /\
+  vars_dropped T1 P_nv a_nv args = false /\
+  (exists g, ground_action T1 P_nv a_nv args = Some g /\ a_pre g = [EFluent 0%N [EObj 0%N]]) /\
+  (exists t, sim_apply_grounded true T1 P_nv s_nv a_nv args = Some t /\
+             t 0%N [VObj 0%N] = Some (VBool false) /\ t 1%N [] = Some (VNum (zq 2))).
+Proof. exact grounded_nonvacuous. Qed.
